@@ -72,6 +72,9 @@ var findings = []finding{
 		return wCallAtRest(`Array.prototype.join`, `(function(){var a=[1];a[1]=a;return a})()`)
 	}},
 	{"C02-JSON-STRINGIFY-DEPTH", func() string { return wRun(`JSON.stringify(1, Array)`) }},
+	{"C02-GOSLICE-DEFINE-DESCRIPTOR", func() string {
+		return wRun(`Object.defineProperty(__goslice, "0", {get: function(){ return 1 }})`)
+	}},
 	{"C02-GOMAP-NIL", func() string { return wRun(`__gonilmap.a = 1`) }},
 	{"C02-EXPORT-UNGUARDED", func() string {
 		vm := newVM(64, 100_000)
@@ -224,7 +227,10 @@ func excludedCall(fn fnEntry, recv kind, ap argPlan, ks []kind, way int) string 
 	if known("C02-GOMAP-NIL") && target(func(k kind) bool { return k.Name == "go-nil-map" }) {
 		return "C02-GOMAP-NIL"
 	}
-	if known("C02-EXPORT-CYCLE") && target(func(k kind) bool { return k.Name == "go-map" }) && (anyArg(cyclicKind) || cyclicKind(this)) {
+	if known("C02-GOSLICE-DEFINE-DESCRIPTOR") && isOneOf(fn.Path, "Object.assign", "Object.defineProperty", "Object.defineProperties") && has0 && isOneOf(a0.Name, "go-slice", "go-slice-any", "go-array") {
+		return "C02-GOSLICE-DEFINE-DESCRIPTOR"
+	}
+	if known("C02-EXPORT-CYCLE") && target(func(k kind) bool { return isOneOf(k.Name, "go-map", "go-slice-any") }) && (anyArg(cyclicKind) || cyclicKind(this)) {
 		return "C02-EXPORT-CYCLE" // a value stored into map[string]interface{} is exported first
 	}
 	return ""
